@@ -4,6 +4,11 @@ import PttVerif.Gen.CryptTables
 C02 — executable model of crypt/crypt.go, crypt/utils.go, crypt/bbscrypt.go and of
 cmbbs.GenPasswd / cmbbs.CheckPasswd.  Core Lean only (linked into drv_c02).
 
+Purity.  Every function here is a pure function of its arguments: two results never share state.  In the Go code that
+is a property of its own (the 14-byte result of `Fcrypt` must be a fresh buffer, not a reused / pooled one that a later
+call overwrites); it is tied by the correspondence ops `retain`, `checkfc` and `conc` of go/cmd/c02, which keep a
+returned hash alive across further calls and compare with the two independent model results.
+
 Conventions
 * a Go `uint32` is a `Nat` below 2^32; every operation that can leave that range in Go (`<<`) is truncated
   explicitly with `w32`; `>>`, `&`, `|`, `^` on values in range stay in range.
